@@ -92,6 +92,10 @@ def build(kind, p):
         params = T.ProxyPutRequestParams(L.UBF(p["id"], p["w"]), L.CfdpLv(bt(p["src"])), L.CfdpLv(bt(p["dst"])))
         return T.ProxyPutRequest(params)
     if kind == "putresp":
+        if p.get("via") == "finished":  # the alternate constructor: parameters taken over from the Finished PDU's parameters
+            from spacepackets.cfdp.pdu.finished import FinishedParams
+            fp = FinishedParams(L.ConditionCode(p["cc"]), L.DeliveryCode(p["dc"]), L.FileStatus(p["fs"]))
+            return T.ProxyPutResponse(T.ProxyPutResponseParams.from_finished_params(fp))
         return T.ProxyPutResponse(T.ProxyPutResponseParams(L.ConditionCode(p["cc"]), L.DeliveryCode(p["dc"]), L.FileStatus(p["fs"])))
     if kind == "cancel":
         return T.ProxyCancelRequest()
@@ -375,7 +379,7 @@ def check_nonreserved(rec: Rec, content: bytes, via: str, nontrivial=True):
 
 # ================================================================================ alphabets
 def name_octets(tier):
-    out = [n.encode("utf-8") for n in D.NAMES] + [b"x" * 120, "ü".encode("utf-8") * 60, b"data/", b"./a.txt", b"a/../b"]
+    out = [n.encode("utf-8") for n in D.NAMES] + [b"x" * 120, "ü".encode("utf-8") * 60, b"data/", b"./a.txt", b"a/../b", b"cfdp", b"/data/cfdp", b"xcfdpcfdp/cfdp.bin"]  # the last three contain the reserved-message marker itself
     if tier != "quick":
         out += [b"\x00", b"\xff\xfe", b"\x01\x00", b"n" * 63, b"n" * 64, bytes(range(100, 200))]
     return D.dedupe(out)
@@ -519,7 +523,8 @@ def run_shard(item):
                 for fs in range(4):
                     p = {"cc": cc, "dc": dc, "fs": fs}
                     ref = check_message(rec, "putresp", p)
-                    n += 1
+                    check_message(rec, "putresp", dict(p, via="finished"))
+                    n += 2
                     if (cc, dc, fs) == (10, 1, 2):
                         rec.sample({"ProxyPutResponse": p, "expected_octets": ref})
         rec.count("proxy_put_responses", n)
